@@ -121,9 +121,14 @@ def _synced_before_ok(ctx, name):
     if b is None:
         return False
     ws = V.W_REACHING(b)
+    if not ws:
+        return False
+    ws = [x for x in ws if not C02.call_is_self_synced(b, x)]
+    if not ws:
+        return True
     ss = set(C02.SYNC(b))
     oks = set(A.ok_nodes(b))
-    if not ws or not ss:
+    if not ss:
         return False
     for w in ws:
         r, _ = A.reach(b, A.succs(b, w), blocked_nodes=ss)
